@@ -1,6 +1,6 @@
 (* Case runner for C12: class predicates evaluated in Coq. *)
 From Coq Require Import List String Bool.
-From RashV Require Import Sexp Tpl HelpDoc UsageDoc.
+From RashV Require Import Sexp Tpl Omit Valid HelpDoc UsageDoc.
 Import ListNotations.
 Open Scope string_scope.
 
@@ -30,5 +30,55 @@ Definition run_usagedoc (e : sexp) : option sexp :=
                            | None => Atom "none"
                            | Some l => SList (Atom "usages" :: map bytes_atom l)
                            end) (atom_bytes f)
+  | _ => None
+  end.
+
+(* (rendermap (store (xK xV) ...) (entries (xK lit xV) | (xK var xK2) | (xK omit) | (xK defomit xK2) ...))
+   -> (ok (xK xV) ...) | (err) : jinja::render_map over a mapping whose entries may yield `omit` *)
+Definition read_pair (e : sexp) : option (string * string) :=
+  match e with
+  | SList [k; v] => match atom_bytes k, atom_bytes v with Some k, Some v => Some (k, v) | _, _ => None end
+  | _ => None
+  end.
+Definition read_entry (e : sexp) : option (string * oval) :=
+  match e with
+  | SList [k; Atom "lit"; v] => match atom_bytes k, atom_bytes v with Some k, Some v => Some (k, OLit v) | _, _ => None end
+  | SList [k; Atom "var"; v] => match atom_bytes k, atom_bytes v with Some k, Some v => Some (k, OVar v) | _, _ => None end
+  | SList [k; Atom "defomit"; v] => match atom_bytes k, atom_bytes v with Some k, Some v => Some (k, ODefOmit v) | _, _ => None end
+  | SList [k; Atom "omit"] => option_map (fun k => (k, OOmit)) (atom_bytes k)
+  | _ => None
+  end.
+Definition run_rendermap (e : sexp) : option sexp :=
+  match e with
+  | SList [Atom "rendermap"; SList (Atom "store" :: st); SList (Atom "entries" :: es)] =>
+      match map_opt read_pair st, map_opt read_entry es with
+      | Some st, Some es =>
+          Some (match render_entries st es with
+                | Some l => SList (Atom "ok" :: map (fun '(k, v) => SList [bytes_atom k; bytes_atom v]) l)
+                | None => SList [Atom "err"]
+                end)
+      | _, _ => None
+      end
+  | _ => None
+  end.
+
+(* (validfile notmap | (keys (s xKEY) | other ...) ...) -> (t|f per entry ... file t|f) : task/new.rs + task/valid.rs on the
+   key sets of a file's entries *)
+Definition read_tkey (e : sexp) : option tkey :=
+  match e with
+  | SList [Atom "s"; k] => option_map KStr (atom_bytes k)
+  | Atom "other" => Some KOther
+  | _ => None
+  end.
+Definition read_rawtask (e : sexp) : option rawtask :=
+  match e with
+  | Atom "notmap" => Some RNotMap
+  | SList (Atom "keys" :: ks) => option_map RMap (map_opt read_tkey ks)
+  | _ => None
+  end.
+Definition run_validfile (e : sexp) : option sexp :=
+  match e with
+  | SList (Atom "validfile" :: ts) =>
+      option_map (fun ts => SList (map (fun t => show_bool (valid_task t)) ts ++ [Atom "file"; show_bool (valid_file ts)])) (map_opt read_rawtask ts)
   | _ => None
   end.
